@@ -120,3 +120,31 @@ def session (env : Env) (table : Option (List (Bytes × Nat))) (g : Guards) (cfg
           (respond table g cfg msg ++ r.1, r.2)
 
 end Gldap.Session
+
+namespace Gldap.Session
+open Ber Gldap Gldap.Generated
+
+/-- the requests the read loop decodes, in order, up to and including an Unbind -/
+def sessionMsgs (env : Env) (g : Guards) : Nat → Bytes → List Msg
+  | 0, _ => []
+  | fuel + 1, bs =>
+    if bs.isEmpty then []
+    else match serveFrame env g bs with
+      | .ok msg => if msg.isUnbind then [msg] else msg :: sessionMsgs env g fuel (frameRest env bs)
+      | _ => []
+
+/-- what the connection writes for one decoded request -/
+def framesFor (table : Option (List (Bytes × Nat))) (g : Guards) (cfg : Cfg) (msg : Msg) : List Bytes :=
+  if msg.isUnbind then respondUnbind g cfg msg.id else respond table g cfg msg
+
+/-- the handler invocations a decoded request causes: (handler, message id) -/
+def callsFor (table : Option (List (Bytes × Nat))) (cfg : Cfg) (msg : Msg) : List (Nat × Int) :=
+  if msg.isUnbind then
+    match (Mux.build cfg.regs).unbind with
+    | some h => [(h, msg.id)]
+    | none => []
+  else (serve table (Mux.build cfg.regs) msg).filterMap fun
+    | .invoke h => some (h, msg.id)
+    | .refuse .. => none
+
+end Gldap.Session
